@@ -78,6 +78,9 @@ mod lark;
 
 pub use regex_rewrite::regex_to_lark;
 
+#[cfg(feature = "llg_verif")]
+pub mod verif;
+
 #[cfg(feature = "wasm")]
 pub use instant::Instant;
 
